@@ -19,13 +19,16 @@ CONSTANTS Variants,     \* "R2-RC4-40" "R3-RC4-56" "R3-RC4-128" "R4-RC4-128" "R4
           Places,       \* where the string / stream lives
           LenClasses,   \* "empty" "short" "block" "long"
           IdClasses,    \* "low" "gen" "high"   -> (id, gen)
+          DictForms,    \* spelling of the key length in the Encrypt dictionary of a crypt-filter (V 4) document:
+                        \* "plain" (CF /Length in bytes + /Length in bits), "cf-length-bits" (CF /Length in bits, as many writers do),
+                        \* "cf-no-length" (only the dictionary's /Length), "no-length" (neither: AESV2 is 128 bit by definition)
           Roots,        \* where the catalog and the page tree live: "object" | "objstm" (inside an encrypted object stream)
           Dev
 
-VARIABLES variant, pwrel, encMeta, place, len, idc, kind, root,
+VARIABLES variant, pwrel, encMeta, place, len, idc, kind, root, dform,
           phase, opened, answer
 
-vars == <<variant, pwrel, encMeta, place, len, idc, kind, root, phase, opened, answer>>
+vars == <<variant, pwrel, encMeta, place, len, idc, kind, root, dform, phase, opened, answer>>
 
 Method(v) == CASE v \in {"R2-RC4-40", "R3-RC4-56", "R3-RC4-128", "R4-RC4-128"} -> "RC4"
                [] v = "R4-AESV2" -> "AESV2" [] OTHER -> "AESV3"
@@ -36,15 +39,17 @@ ObjKey(v, idgen) == IF Method(v) = "AESV3" THEN <<"filekey", v>> ELSE <<"filekey
 Enc(m, k, pt) == [m |-> m, k |-> k, pt |-> pt]
 Dec(m, k, ct) == IF ct.m = m /\ ct.k = k THEN ct.pt ELSE "garbage"
 
+\* EncryptMetadata is meaningful from V 4 on; below, the metadata stream is encrypted like every other stream
+HonoursFlag(v) == v \notin {"R2-RC4-40", "R3-RC4-56", "R3-RC4-128"}
 \* what the document contains at `place` (writer side, Prop)
-Exempt(pl, em) == pl \in {"encrypt-dict-indirect", "encrypt-dict-direct"} \/ (pl = "metadata-stream" /\ ~em)
+Exempt(pl, em, v) == pl \in {"encrypt-dict-indirect", "encrypt-dict-direct"} \/ (pl = "metadata-stream" /\ ~em /\ HonoursFlag(v))
 \* strings anywhere inside an indirect object - its value itself, a dictionary value, an array element, inside nested containers -
 \* are encrypted with the object's own key
 StringPlaces == {"string-in-object", "string-bare", "string-in-array", "string-nested"}
 Individually(pl) == pl \in StringPlaces \cup {"stream", "metadata-stream"}       \* encrypted with the object's own key
 \* strings inside an object stream are protected by the encryption of the container; the xref stream is never encrypted
 PlainStored == [m |-> "none", k |-> <<>>, pt |-> "plain"]
-Stored(pl, v, idgen, em) == IF Exempt(pl, em) \/ ~Individually(pl) THEN PlainStored ELSE Enc(Method(v), ObjKey(v, idgen), "plain")
+Stored(pl, v, idgen, em) == IF Exempt(pl, em, v) \/ ~Individually(pl) THEN PlainStored ELSE Enc(Method(v), ObjKey(v, idgen), "plain")
 
 \* ---------------------------------------------------------------- Mech
 \* Decoder::from_password: user check first, then owner unwrap + user check
@@ -54,19 +59,24 @@ Stored(pl, v, idgen, em) == IF Exempt(pl, em) \/ ~Individually(pl) THEN PlainSto
 Open ==
   /\ phase = "open"
   /\ opened' = IF pwrel \in {"user", "owner", "empty-user"}
-                THEN (IF root = "objstm" /\ "catalog_read_before_decoder" \in Dev THEN "err-open" ELSE "ok")
+                THEN (IF root = "objstm" /\ "catalog_read_before_decoder" \in Dev THEN "err-open"
+                      \* the owner path derives the wrapping key from the key size: a size taken as 8 times too large is refused
+                      ELSE IF dform = "cf-length-bits" /\ pwrel = "owner" /\ "cf_bits_refused_for_owner" \in Dev THEN "err-open"
+                      \* AESV2 without any /Length: a 40 bit default key does not verify
+                      ELSE IF dform = "no-length" /\ "aesv2_defaults_to_40_bits" \in Dev THEN "err-password"
+                      ELSE "ok")
                 ELSE "err-password"
   /\ phase' = "read"
-  /\ UNCHANGED <<variant, pwrel, encMeta, place, len, idc, kind, root, answer>>
+  /\ UNCHANGED <<variant, pwrel, encMeta, place, len, idc, kind, root, dform, answer>>
 
 \* key the library decrypts with
 LibKey(v, idgen) == IF Method(v) = "AESV3" /\ "aesv3_key_truncated" \in Dev THEN <<"truncated">> ELSE ObjKey(v, idgen)
 
 \* does the library apply decryption at this place?
-LibDecrypts(pl, em) ==
+LibDecrypts(pl, em, v) ==
   CASE pl \in {"string-in-object", "string-bare", "stream"} -> TRUE
     [] pl \in {"string-in-array", "string-nested"} -> "array_elements_not_decrypted" \notin Dev      \* the decryption context is handed down into containers
-    [] pl = "metadata-stream" -> em \/ "metadata_exemption_ignored" \in Dev
+    [] pl = "metadata-stream" -> em \/ "metadata_exemption_ignored" \in Dev \/ (~HonoursFlag(v) /\ "metadata_flag_honoured_below_v4" \notin Dev)
     [] pl = "encrypt-dict-indirect" -> "encrypt_dict_decrypted" \in Dev
     [] pl = "encrypt-dict-direct" -> FALSE                       \* the trailer is parsed without a decryption context
     [] pl = "string-in-objstm" -> "objstm_strings_decrypted_twice" \in Dev
@@ -77,11 +87,11 @@ Read ==
   /\ IF opened # "ok" THEN answer' = opened
      ELSE LET st == Stored(place, variant, IdOf(idc), encMeta) IN
           answer' = IF len = "empty" /\ kind = "string" THEN "plain"                  \* empty strings stay empty
-                    ELSE IF LibDecrypts(place, encMeta)
+                    ELSE IF LibDecrypts(place, encMeta, variant)
                          THEN (IF st.m = "none" THEN "garbage" ELSE Dec(Method(variant), LibKey(variant, IdOf(idc)), st))
                          ELSE (IF st.m = "none" THEN "plain" ELSE "garbage")
   /\ phase' = "done"
-  /\ UNCHANGED <<variant, pwrel, encMeta, place, len, idc, kind, root, opened>>
+  /\ UNCHANGED <<variant, pwrel, encMeta, place, len, idc, kind, root, dform, opened>>
 
 KindOf(pl) == IF pl \in {"stream", "metadata-stream", "xref-stream"} THEN "stream" ELSE "string"
 
@@ -91,7 +101,9 @@ Init ==
   /\ kind = KindOf(place)
   /\ root \in Roots /\ (root = "objstm" => variant # "R2-RC4-40" /\ place \notin {"encrypt-dict-direct"})
   /\ (place \in {"metadata-stream", "encrypt-dict-indirect", "encrypt-dict-direct", "xref-stream", "string-in-objstm"} => idc = "low")
-  /\ (~encMeta => variant \notin {"R2-RC4-40", "R3-RC4-56", "R3-RC4-128"})           \* EncryptMetadata exists from revision 4 on
+  /\ dform \in DictForms
+  /\ (dform # "plain" => variant \in {"R4-RC4-128", "R4-AESV2"} /\ place \in {"string-in-object", "stream"} /\ len = "short" /\ idc = "low" /\ root = "object")
+  /\ (dform = "no-length" => variant = "R4-AESV2")
   /\ (place \in {"string-in-objstm", "xref-stream"} => variant \notin {"R2-RC4-40"}) \* object streams need PDF 1.5
   /\ phase = "open" /\ opened = "none" /\ answer = "none"
 
